@@ -28,7 +28,7 @@ func batch(seed uint64, tier, which string) []program {
 	thorough := tier == "thorough"
 	per := map[string]int{"inproc": 36, "race": 70}[which]
 	if thorough {
-		per = map[string]int{"inproc": 420, "race": 900}[which]
+		per = map[string]int{"inproc": 320, "race": 600}[which]
 	}
 	var ps []program
 	for round := 0; round < per; round++ {
@@ -244,7 +244,7 @@ func checkHistory(r *hk.Run, h *history, t *tally) {
 		if v.classes == nil {
 			r.Fail("nonlin:"+h.Kind+":unexplained",
 				"history is not linearizable against the reference map, and none of the known anomalies of this store explains it: "+histText(h, w, 140),
-				"some order of the calls that respects real time and answers like RefMap", "none exists (porcupine)", ops)
+				"some order of the calls that respects real time and answers like RefMap", "none exists (porcupine); full history: "+string(mustJSON(h)), ops)
 		}
 		for _, c := range v.classes {
 			r.Hit("anomaly:" + h.Kind + ":" + c)
@@ -492,5 +492,7 @@ func NewExec() func(w []string) string {
 		return "bad-op"
 	}
 }
+
+func mustJSON(v any) []byte { b, _ := json.Marshal(v); return b }
 
 var _ = filepath.Join
